@@ -83,7 +83,12 @@ def cases(draw):
     for _ in range(draw(st.integers(4, 30))):
         if scenario and draw(st.integers(0, 2)) == 0:
             # retraction / deferred-code heavy stretch around an episode
-            k = draw(st.sampled_from(["in", "in", "out", "ret", "ret", "ret", "code"]))
+            k = draw(st.sampled_from(["in", "in", "out", "ret", "ret", "ret", "code", "offz"]))
+            if k == "offz":
+                # exclusion switched off (or on) right where the tool is, then a command without X/Y
+                prog.append(["at", "ExcludeRegion", draw(st.sampled_from(["off", "off", "on"]))])
+                prog.append(["g", draw(st.sampled_from(["G1 Z5", "G0 Z0.4", "G1 Z1 E1", "G1 F900", "G1 E2"]))])
+                continue
             if k in ("in", "out"):
                 tx, ty = rnd.target("in" if k == "in" else "grid", draw(st.integers(0, 3)), draw(st.integers(0, 100)), draw(st.integers(0, 100)))
                 prog.append(["g", "G1 X%s Y%s%s" % (gen.fmt(tx), gen.fmt(ty), draw(st.sampled_from(["", " E1", " E-1", " Z2"])))])
